@@ -62,6 +62,7 @@ type c14Input struct {
 	Docs   [2]string
 	Sels   [2]string
 	Single bool // every file holds exactly one JSON value
+	BadSel bool // the first selector is not a valid expression: the library refuses it
 }
 
 type c14Triple struct {
@@ -101,6 +102,13 @@ var c14Inputs = []c14Input{
 	{Name: "arrays", Single: true, Sels: [2]string{"$[0]", "$"},
 		Docs: [2]string{`[{"x":1},{"x":2},{"x":3}]`, `[{"x":4}]`}},
 	{Name: "scalars", Sels: [2]string{"$", "$.x"}, Docs: [2]string{"5 \"str\" null", `{"x":0}`}},
+	// selectors are arbitrary expressions: commas inside them belong to the expression
+	{Name: "comma-array", Single: true, Sels: [2]string{"[$.b, $.a]", `$.pluck("a", "b")`},
+		Docs: [2]string{`{"a":[{"x":1},{"x":2}],"b":[{"x":3}]}`, `{"a":[{"x":4}],"b":[{"x":5},{"x":6}]}`}},
+	{Name: "comma-object", Sels: [2]string{"{ first: $.a, rest: $.b }", "[$.a[0], $.b]"},
+		Docs: [2]string{"{\"a\":[{\"x\":1},{\"x\":2}],\"b\":[{\"x\":3}]}\n{\"a\":[{\"x\":7}],\"b\":8}\n", `{"a":[{"x":4}],"b":[]}`}},
+	{Name: "comma-invalid", Single: true, BadSel: true, Sels: [2]string{"$.a, $.b", "$.a"},
+		Docs: [2]string{`{"a":[{"x":1},{"x":2}],"b":[{"x":3}]}`, `{"a":[{"x":4}],"b":[]}`}},
 }
 
 type c14Run struct {
@@ -111,6 +119,7 @@ type c14Run struct {
 	Sels   []string // selectors actually used
 	Order  []int    // which docs, in which order (indices into T.I.Docs)
 	Dir    bool     // unreadable realised as a directory
+	Stale  bool     // the -o FILE exists before the run, with content longer than any document written here
 	Args   []string
 	Res    BinResult
 	OutDoc []byte // content of the -o FILE, nil if absent
@@ -118,6 +127,9 @@ type c14Run struct {
 }
 
 func c14Key(k c14Cfg) string { b, _ := json.Marshal(k); return string(b) }
+
+// what an -o FILE may hold before the run: longer than any document written by the pool
+var c14StaleDoc = bytes.Repeat([]byte("{\"stale\": [0, 1, 2, 3, 4, 5, 6, 7, 8, 9]}\n"), 100)
 
 // c14Exec materialises one run in its own directory and runs the binary.
 func c14Exec(c *Ctx, base string, n int, r *c14Run) {
@@ -145,6 +157,9 @@ func c14Exec(c *Ctx, base string, n int, r *c14Run) {
 		args = append(args, "-o", "-")
 	case "path":
 		args = append(args, "-o", "out.json")
+		if r.Stale {
+			os.WriteFile(filepath.Join(dir, "out.json"), c14StaleDoc, 0o644)
+		}
 	}
 	if k.ProgVia == "inline" {
 		args = append(args, r.Prog)
@@ -211,13 +226,16 @@ func c14Rep(r *c14Run) map[string]any {
 	if r.OutDoc != nil {
 		m["out_file"] = string(r.OutDoc)
 	}
+	if r.Stale {
+		m["out_file_before_run"] = fmt.Sprintf("%d bytes of other content", len(c14StaleDoc))
+	}
 	return m
 }
 
 func checkC14(c *Ctx) {
 	c.Assume("the exact exit code of a failure is not compared (the statement says non-zero); error messages are not compared, only stderr non-empty when the status is non-zero")
 	c.Assume("stdout is not compared when the run fails before or instead of evaluating (missing / unreadable file, -o with several inputs): the statement only fixes status and diagnostic there")
-	c.Assume("whether -o FILE exists after a failed run is not compared")
+	c.Assume("whether -o FILE exists, and what it holds, after a failed run is not compared; in half of the -o FILE runs the file exists beforehand with longer content")
 	c.Assume("stdin vs named file only for programs that do not print $file; -r E vs BEGINFILE { $ = E } only for one selector and programs that do not inspect $ in BEGINFILE/ENDFILE")
 	c.Assume("file / selector order: output blocks are compared for programs whose output for (A, B) is the output for A followed by that for B (no BEGIN/END, no state carried over), on runs that succeed; selector order on inputs with one value per file")
 	c.Assume("an unreadable input is a mode-000 file (inconclusive when running as root makes it readable) and a directory given as input file")
@@ -303,7 +321,7 @@ func checkC14(c *Ctx) {
 				continue
 			}
 			// -r E  vs  BEGINFILE { $ = E } prepended
-			if cfg.NSel == 1 && !t.P.ReadsBF {
+			if cfg.NSel == 1 && !t.P.ReadsBF && !t.I.BadSel {
 				c2 := cfg
 				c2.NSel = 0
 				add(&c14Run{Key: base + "|bf", Cfg: c2, T: t, Prog: "BEGINFILE { $ = " + t.I.Sels[0] + " }\n" + t.P.Src, Order: order})
@@ -323,6 +341,18 @@ func checkC14(c *Ctx) {
 				add(&c14Run{Key: base + "|s0", Cfg: c1, T: t, Prog: t.P.Src, Sels: []string{t.I.Sels[0]}, Order: order})
 				add(&c14Run{Key: base + "|s1", Cfg: c1, T: t, Prog: t.P.Src, Sels: []string{t.I.Sels[1]}, Order: order})
 				add(&c14Run{Key: base + "|s10", Cfg: cfg, T: t, Prog: t.P.Src, Sels: []string{t.I.Sels[1], t.I.Sels[0]}, Order: order})
+			}
+		}
+	}
+
+	// every other -o FILE run finds the target already there, with longer content
+	nPath := 0
+	for _, r := range runs {
+		if r.Cfg.Out == "path" {
+			r.Stale = nPath%2 == 0
+			nPath++
+			if r.Stale {
+				c.Count("o_file_preexisting_runs", 1)
 			}
 		}
 	}
